@@ -278,7 +278,8 @@ def local_check(rdoc, raw):
     return None
   what, f, note = found[0]
   if what == "set":
-    return ("C04.set", f"on={f['kind']},b={f['b']},d={f['d']},e={f['e']}", note)
+    on = f["kind"] if f["kind"] in ("region", "br") else "content"
+    return ("C04.set", f"on={on},b={f['b']},d={f['d']},e={f['e']}", note)
   if f["kind"] == "region":
     return ("C04.time.region", f"{what},d={f['d']},e={f['e']}", note)
   if what == "begin":
@@ -467,6 +468,8 @@ def compare(case, rdoc, rc, ic, raw, acc):
       if lc is not None:
         clause, disc, n2 = lc
         note += "; " + n2
+      elif aspect == "styles":
+        clause, disc = "C04.set", "unmatched"          # in these families only an animation step can change a style over time
       else:
         clause, disc = "C04.time.other", aspect
     acc.violation(clause, disc, case, observed=is_, expected=rs, note=note)
@@ -482,7 +485,7 @@ def real_or_violation(case, acc, xml=None):
   except Exception as e:  # pylint: disable=broad-except
     if innermost_ttconv_frame(e.__traceback__) is None:
       raise
-    acc.violation(case.get("exc_clause") or "C04.exception", f"{exc_disc(e)},area={case.get('area')}", case, observed=repr(e)[:300],
+    acc.violation(case.get("exc_clause") or "C04.exception", exc_disc(e), case, observed=repr(e)[:300],
                   expected="a document (no exception for a well-formed TTML document)")
     return None, None, type(e).__name__
   return doc, logs, None
